@@ -27,6 +27,7 @@ ROW_ALPHA = [
     ("F", "b", 2, 3, 0),
     ("F", "c", 1, 2, 1, ("Painted", "X")),
     ("F", "c", 7, 9, -1, ("Cut",)),
+    ("F", "c", 1, 2, 1, ("Haplotig",)),  # same contig interval as the Painted/X row above, other tags
     ("G", 1, "scaffold"),
     ("G", 200, "contig"),
 ]
